@@ -337,6 +337,14 @@ def cases(tier, rng):
         c = rt(s, p, q)
         c['other'] = rng.choice(['lc', 'mc', 'eq'])
         yield c
+    # 4d. every ASCII punctuation character doubled and tripled (candidate ligatures: two characters that are harmless alone)
+    for ch in [chr(k) for k in range(33, 127) if not chr(k).isalnum()]:
+        for s in (ch + ch, 'a' + ch + ch + 'b', ch * 3, 'x ' + ch + ch + ' y', ch + ch + '\n' + ch):
+            if not admissible(s):
+                continue
+            p, q = rng.choice(COMBOS)
+            yield rt(s, p, q)
+            yield rt(s, 'braces', False)
     # 4c. other documented spellings of the encoder
     for _ in range(450 if quick else 6000):
         L = rng.randint(1, 8)
